@@ -48,6 +48,8 @@ impl Drop for Tok {
 
 #[derive(Clone, Debug)]
 pub struct TokSt {
+    /// the output type has no drop glue: its drops cannot be observed (and cannot leak)
+    pub nodrop: bool,
     pub child: u32,
     pub seq: u32,
     pub kind: u32,
@@ -80,6 +82,10 @@ pub struct Child {
     pub credits: u32,
     pub yielded: bool,
     pub from_upstream: bool,
+    /// the future type has no Drop impl: its drop cannot be observed
+    pub nodrop: bool,
+    /// panicked in its poll
+    pub panicked: bool,
     // sources
     pub avail: u32,
     pub closed: bool,
@@ -177,9 +183,13 @@ pub struct World {
     pub steps: u64,
     pub faults: [u64; NFAULT],
     pub unit_outputs: bool,
+    /// type shape of this run
+    pub nd_children: bool,
+    pub raw_outputs: bool,
+    pub child_panics: u64,
 }
 
-pub const NFAULT: usize = 16;
+pub const NFAULT: usize = 17;
 pub const FAULT_NAMES: [&str; NFAULT] = [
     "spurious_wake",
     "duplicate_wake",
@@ -197,6 +207,7 @@ pub const FAULT_NAMES: [&str; NFAULT] = [
     "upstream_pending",
     "upstream_error",
     "refused_push",
+    "child_panic",
 ];
 pub const FA_SPURIOUS: usize = 0;
 pub const FA_DUP: usize = 1;
@@ -214,6 +225,7 @@ pub const FA_CANCEL: usize = 12;
 pub const FA_UP_PENDING: usize = 13;
 pub const FA_UP_ERR: usize = 14;
 pub const FA_REFUSED: usize = 15;
+pub const FA_PANIC: usize = 16;
 
 impl World {
     pub fn new() -> World {
@@ -250,6 +262,9 @@ impl World {
             steps: 0,
             faults: [0; NFAULT],
             unit_outputs: false,
+            nd_children: false,
+            raw_outputs: false,
+            child_panics: 0,
         }
     }
 
@@ -295,6 +310,8 @@ impl World {
             credits: 0,
             yielded: false,
             from_upstream: false,
+            nodrop: self.nd_children,
+            panicked: false,
             avail: if kind == CKind::Src {
                 match beh.items {
                     255 => INF,
@@ -315,6 +332,7 @@ impl World {
     pub fn new_tok(&mut self, child: u32, seq: u32, kind: u32) -> Tok {
         let id = self.toks.len() as u32;
         self.toks.push(TokSt {
+            nodrop: self.raw_outputs && kind != K_UPERR,
             child,
             seq,
             kind,
